@@ -273,7 +273,7 @@ def check(ctx, rep):
                 while x[0] == "after" and util.is_call(x[1]) and ("as_mut_slice" in x[1][1] or "deref_mut" in x[1][1]):
                     x = strip(x[3])
                 return x
-            b_ok = buf_old is not None and peelbuf(buf_old) == ("agg", "array", None, 0, (("param", 2),))
+            b_ok = buf_old is not None and peelbuf(buf_old) in (("agg", "array", None, 0, (("param", 2),)), ("param", 2))   # [value], or the byte itself viewed as a one-element slice (slice::from_mut)
             h_ok = hu[0] == "after" and util.is_call(hu[1]) and hu[1][1] in util.MAC_UPDATE and hu[2] == 0 and hu[3] == ("field", ("deref", ("param", 1)), hf[0])
             if h_ok:
                 x = strip(hu[1][2][1])
@@ -282,7 +282,12 @@ def check(ctx, rep):
                 for sub in walk(x):
                     if sub[0] == "after" and util.is_call(sub[1], "rc4::Rc4::apply_keystream") and sub[2] == 1:
                         enc = True
-                h_ok = enc
+                # ... all of it and nothing else: the MAC input is that one-byte buffer itself
+                y = x
+                while y[0] in ("ref", "refv") or (util.is_call(y) and (y[1] in util.IDENT_CALLS or "as_slice" in y[1] or "deref" in y[1].lower()) and len(y[2]) == 1):
+                    y = strip(y[1] if y[0] in ("ref", "refv") else y[2][0])
+                whole = y[0] == "after" and util.is_call(y[1], "rc4::Rc4::apply_keystream") and y[2] == 1 and y[1][3][:2] == ru[1][3][:2]
+                h_ok = enc and whole
             good = r_ok and b_ok and h_ok
     rep.check(good, "transcript", MV + "::enter_value", "encrypt-then-mac", "rc4 encrypts the one digit byte; the MAC is updated with that encrypted byte", "enter_value is not `rc4.apply_keystream([value]); hmac.update(encrypted byte)`", ese.body.loc() if ese else None)
     ise = ctx.wrap.run(MV + "::into_proof")
